@@ -230,7 +230,7 @@ def pairing_r(group, inputs):
 
 
 ROUTINES = {'numeric': numeric, 'woks': woks, 'lwe': lwe_r, 'poly': lwe_r, 'extract': lwe_r, 'decomp': decomp_r, 'tlwe': lwe_r,
-            'mult': mult_r, 'keyswitch': keyswitch_r, 'pairing': pairing_r, 'gate': gates_r, 'blind': blind_r, 'params': params_r, 'io': io_r, 'iotext': lambda g, i: io_r(g, i, 'C05text')}
+            'mult': mult_r, 'keyswitch': keyswitch_r, 'pairing': pairing_r, 'gadget': lwe_r, 'gate': gates_r, 'blind': blind_r, 'params': params_r, 'io': io_r, 'iotext': lambda g, i: io_r(g, i, 'C05text')}
 
 
 def run(name, group, inputs):
